@@ -67,6 +67,7 @@ def main(argv):
         seed = 1
 
     t0 = time.time()
+    ctx = None
     try:
         _setup_paths()
         mod = importlib.import_module(f"vf.props.{prop.lower()}")
@@ -158,6 +159,12 @@ def main(argv):
         traceback.print_exc()
         print("HARNESS-ERROR: unexpected exception in the checking machinery")
         return 2
+    finally:
+        try:
+            if ctx is not None:
+                ctx.cleanup()  # the parent's scratch directory must not leak on the error paths either
+        except Exception:
+            pass
 
 
 if __name__ == "__main__":
